@@ -814,18 +814,31 @@ func checkC17Nested(c *Ctx, n int) {
 		root := &StructDesc{Fields: []FieldDesc{
 			{Name: "TopOpt", Exported: true, Kind: "v", Ty: "bool", Tag: topTag},
 			{Name: "Sub", Exported: true, Kind: "s", Sub: sub, Tag: `command:"sub" description:"the sub command"`}}}
+		// a third of the declarations: the PARENT takes a described positional argument whose name is
+		// around (or well beyond) the widest option name - its row is laid out in the same column
+		path := []string{"sub"}
+		if r.Intn(3) == 0 {
+			an := name(L+r.Intn(12)-2, 'p')
+			root.Fields = append(root.Fields, FieldDesc{Name: "Args", Exported: true, Kind: "s", Tag: `positional-args:"yes"`, Sub: &StructDesc{Fields: []FieldDesc{
+				{Name: "Parg", Exported: true, Kind: "v", Ty: "str", Tag: fmt.Sprintf(`positional-arg-name:"%s" description:"argdesc-of-Parg-end parent argument"`, an)}}}})
+			path = []string{"value", "sub"}
+		}
+		if r.Intn(4) == 0 {
+			sub.Fields = append(sub.Fields, FieldDesc{Name: "SArgs", Exported: true, Kind: "s", Tag: `positional-args:"yes"`, Sub: &StructDesc{Fields: []FieldDesc{
+				{Name: "Sarg", Exported: true, Kind: "v", Ty: "str", Tag: fmt.Sprintf(`positional-arg-name:"%s" description:"argdesc-of-Sarg-end sub argument"`, name(L+r.Intn(8)-2, 'q'))}}}})
+		}
 		cs := &Case{Name: "app", NsDelim: ".", EnvNsDelim: "_"}
 		if r.Intn(2) == 0 {
 			cs.Opts |= flags.HelpFlag
 		}
 		cs.Build = []BuildOp{{Kind: "addgroup", Target: 1, Short: "Application Options", Struct: root}}
 		cols := []int{80, 120, 60}[r.Intn(3)]
-		cs.Ops = []Op{{Kind: "parse", Args: []string{"sub"}}, {Kind: "help", Cols: effCols(cols)}}
+		cs.Ops = []Op{{Kind: "parse", Args: path}, {Kind: "help", Cols: effCols(cols)}}
 		cs.Description = describeOps(cs)
 		c.RunCases([]*Case{cs}, func(cr *CaseResult) {
 			c.classifyCase(cr)
 			c.Class(fmt.Sprintf("c17/nested: sub-name minus top-name = %d", delta))
-			c.Distinct(cs.Description + topTag + subTag)
+			c.Distinct(cs.Description + topTag + subTag + fmt.Sprint(len(root.Fields), len(sub.Fields)))
 			for _, l := range cr.Impl {
 				if l == "HELP PANIC" || strings.HasPrefix(l, "PANIC") {
 					c.Check("help-never-panics", false, "C17:help-panic", map[string]interface{}{"case": cs.Description, "top_option": topTag, "sub_option": subTag, "case_file": c.saveCase(cr)}, l, "normal return")
